@@ -641,10 +641,23 @@ def check_block_state_cleared(run, rule):
             if not extra_:
                 uncond.add(tgt_)
     resets = {r_: l_ for r_, l_ in resets.items() if r_ in uncond}
+    # a member that is only ever read while a validity flag is set carries nothing once clear() has lowered that flag
+    from .. import memos as _memos
+    behind = {}
+    for flag_, members_ in _memos.flags(facts, BLK).items():
+        lowered = any(x.get("k") == "Bin" and x.get("op") == "=" and path(x.get("lhs")) == ("this", flag_) and const_value(x.get("rhs")) == 0
+                      for st_, g_, loops_ in ir.guarded_statements(clr["body"], envk) if g_ == ("T",) for x in ir.walk(st_))
+        if lowered:
+            for m_ in members_:
+                behind[m_] = flag_
     n = 0
     for tgt, (f, ln) in sorted(touched.items()):
         n += 1
         ok = any(tgt[:len(r)] == r for r in resets)
+        if not ok and tgt[1] in behind:
+            run.ob(rule, "CdnsBlock::clear:resets-%s" % ".".join(tgt[1:]), True, clr, clr["line"],
+                   "%s is read only while %s is set, and clear() lowers that flag" % (".".join(tgt[1:]), behind[tgt[1]]))
+            continue
         run.ob(rule, "CdnsBlock::clear:resets-%s" % ".".join(tgt[1:]), ok, clr, clr["line"],
                "%s (changed by %s) is re-initialised by clear()" % (".".join(tgt[1:]), short(f["qn"])) if ok else
                "%s:%d changes %s while a record is buffered, but clear() leaves it as it is: the next block starts with state that "
